@@ -114,6 +114,7 @@ func (r *runner) run(ctx context.Context, isStream bool, input any, opts ...Opti
 			ctx, result = onGraphEnd(ctx, result, isStream)
 		}
 	}()
+	verifTraceRun(ctx)
 	var runWrapper runnableCallWrapper
 	runWrapper = runnableInvoke
 	if isStream {
